@@ -51,6 +51,9 @@ var (
 	cOffGridRefused = simrt.RegisterCounter("probe_off_grid_value_refused_by_mac_layer_not_judged")
 	cRX1Freq        = simrt.RegisterCounter("probe_rx1_frequency_through_dlchannelreq")
 	cFreshChanged   = simrt.RegisterCounter("probe_fresh_config_differs_after_run")
+	cScribble       = simrt.RegisterCounter("fault_caller_overwrites_a_result_it_was_handed")
+	cDeep           = simrt.RegisterCounter("op_long_history_of_hundreds_of_operations")
+	cBeyond96       = simrt.RegisterCounter("probe_plan_beyond_96_channels_linkadr_not_judged")
 )
 
 var names = []band.Name{band.EU868, band.US915, band.AU915, band.AS923, band.AS923_2, band.AS923_3, band.AS923_4,
@@ -70,6 +73,12 @@ func build(w *sim.World) {
 		rep := simrt.Choose(2) == 1
 		dt := lorawan.DwellTime(simrt.Choose(2))
 		nOps := simrt.Choose(1 + 40*sim.Scale)
+		if simrt.Choose(48) == 1 {
+			// now and then a long-lived band: hundreds of operations, channel
+			// tables that outgrow 16-, 64-, 96- and 255-entry assumptions
+			nOps = 120 + simrt.Choose(280)
+			simrt.Count(cDeep)
+		}
 		sub := simrt.Raw()
 		w.Notef("task %d: %s repeater=%v dwell=%d, %d operations", i, name, rep, dt, nOps)
 		w.Spawn(fmt.Sprintf("operator%d", i), func() { operator(name, rep, dt, nOps, sub) })
@@ -92,6 +101,7 @@ func buildShared(w *sim.World) {
 	if st == nil {
 		return
 	}
+	st.shared = true
 	r := sim.NewRand(simrt.Raw())
 	for k := 0; k < nOps; k++ {
 		st.op(r)
@@ -108,7 +118,7 @@ func buildShared(w *sim.World) {
 				if simrt.Dead() {
 					return
 				}
-				simrt.Progress()
+				sim.Op()
 				st.observe(rr)
 			}
 			simrt.Count(cNontrivial)
@@ -152,6 +162,7 @@ type state struct {
 	nTXPower   int            // length of the TX-power offset table
 	steps      int
 	judgeEnc   bool // whether a refusal by the MAC layer is a violation for the value at hand
+	shared     bool // several tasks read this band at the same time
 }
 
 func operator(name band.Name, rep bool, dt lorawan.DwellTime, nOps int, sub uint64) {
@@ -166,7 +177,7 @@ func operator(name band.Name, rep bool, dt lorawan.DwellTime, nOps int, sub uint
 		if simrt.Dead() {
 			return
 		}
-		simrt.Progress()
+		sim.Op()
 		st.op(r)
 		st.observe(r)
 		if r.Intn(3) == 0 {
@@ -415,11 +426,35 @@ func (st *state) observe(r *sim.Rand) {
 	b, m := st.b, st.m
 	n := len(m.Chans)
 	sim.Guard("panic", func() {
-		cmpInts("GetUplinkChannelIndices", st.name, b.GetUplinkChannelIndices(), m.All())
-		cmpInts("GetStandardUplinkChannelIndices", st.name, b.GetStandardUplinkChannelIndices(), m.Standard())
-		cmpInts("GetCustomUplinkChannelIndices", st.name, b.GetCustomUplinkChannelIndices(), m.CustomIdx())
-		cmpInts("GetEnabledUplinkChannelIndices", st.name, b.GetEnabledUplinkChannelIndices(), m.EnabledIdx())
-		cmpInts("GetDisabledUplinkChannelIndices", st.name, b.GetDisabledUplinkChannelIndices(), m.DisabledIdx())
+		// a result is the caller's: now and then the caller sorts it, filters it
+		// in place, appends to it - the band's next answers must not change
+		// (single-owner runs only: concurrent readers of one band keep their
+		// hands off)
+		scribble := !st.shared && r.Intn(4) == 0
+		get := []struct {
+			what string
+			f    func() []int
+			want []int
+		}{
+			{"GetUplinkChannelIndices", b.GetUplinkChannelIndices, m.All()},
+			{"GetStandardUplinkChannelIndices", b.GetStandardUplinkChannelIndices, m.Standard()},
+			{"GetCustomUplinkChannelIndices", b.GetCustomUplinkChannelIndices, m.CustomIdx()},
+			{"GetEnabledUplinkChannelIndices", b.GetEnabledUplinkChannelIndices, m.EnabledIdx()},
+			{"GetDisabledUplinkChannelIndices", b.GetDisabledUplinkChannelIndices, m.DisabledIdx()},
+		}
+		for _, g := range get {
+			res := g.f()
+			cmpInts(g.what, st.name, res, g.want)
+			if scribble {
+				simrt.Count(cScribble)
+				ownerWriteInts(res, r)
+			}
+		}
+		if scribble {
+			for _, g := range get {
+				cmpInts(g.what, st.name, g.f(), g.want)
+			}
+		}
 	})
 	simrt.Trace(evObs, uint64(n), uint64(len(m.EnabledIdx())))
 	// channels, incl. standard channels never altered
@@ -587,6 +622,30 @@ func (st *state) observe(r *sim.Rand) {
 	st.cflist()
 }
 
+// ownerWriteInts is what a caller may do with a slice it was handed: the
+// name marks a write to caller-owned memory (see the driver's race
+// attribution).
+func ownerWriteInts(s []int, r *sim.Rand) {
+	switch r.Intn(4) {
+	case 0: // reverse in place (sort descending)
+		for i, j := 0, len(s)-1; i < j; i, j = i+1, j-1 {
+			s[i], s[j] = s[j], s[i]
+		}
+	case 1: // filter in place / overwrite
+		for i := range s {
+			s[i] = 100000 + i
+		}
+	case 2: // append (lands in spare capacity if there is any)
+		s = append(s, 4242, 4243)
+		s[len(s)-1] = 4244
+	default: // everything up to the capacity
+		s = s[:cap(s)]
+		for i := range s {
+			s[i] = -7
+		}
+	}
+}
+
 func chanAt(m *spec.Plan, i int) interface{} {
 	if i < 0 || i >= len(m.Chans) {
 		return "none"
@@ -606,10 +665,29 @@ func (st *state) cflist() {
 			allCustom = append(allCustom, c.Freq)
 		}
 	}
-	for _, v := range versions {
+	if !st.shared {
+		st.steps++
+	}
+	var pending *lorawan.CFList
+	defer func() {
+		if pending != nil {
+			ownerWriteCFList(pending)
+		}
+	}()
+	for vi, v := range versions {
+		if pending != nil {
+			ownerWriteCFList(pending)
+			pending = nil
+		}
 		var cf *lorawan.CFList
 		if sim.Guard("panic", func() { cf = st.b.GetCFList(v) }) {
 			continue
+		}
+		if cf != nil && !st.shared && (st.steps+vi)%5 == 0 {
+			// the caller edits the CFList it was handed (for one device) once
+			// this iteration has judged it: the band's later offers must not change
+			simrt.Count(cScribble)
+			pending = cf
 		}
 		old := v == band.LoRaWAN_1_0_0 || v == band.LoRaWAN_1_0_1 || v == band.LoRaWAN_1_0_2
 		known := old || v == band.LoRaWAN_1_0_3 || v == band.LoRaWAN_1_0_4 || v == band.LoRaWAN_1_1_0
@@ -663,6 +741,20 @@ func (st *state) cflist() {
 			simrt.Report("p3.cflist:"+st.name, fmt.Sprintf("GetCFList(%s) masks %v, model's enabled flags give %v", v, pl.ChannelMasks, m.CFListMasks()))
 		}
 	}
+}
+
+func ownerWriteCFList(cf *lorawan.CFList) {
+	switch pl := cf.Payload.(type) {
+	case *lorawan.CFListChannelPayload:
+		pl.Channels[3], pl.Channels[4] = 0, 0
+		pl.Channels[0], pl.Channels[1] = pl.Channels[1], pl.Channels[0]
+	case *lorawan.CFListChannelMaskPayload:
+		for i := range pl.ChannelMasks {
+			pl.ChannelMasks[i][3] = !pl.ChannelMasks[i][3]
+		}
+		pl.ChannelMasks = append(pl.ChannelMasks, lorawan.ChMask{})
+	}
+	cf.CFListType = 7
 }
 
 // ----------------------------------------------------------------- P4
@@ -864,8 +956,19 @@ func (st *state) closure(r *sim.Rand) {
 		dev = append(dev, n+r.Intn(16))
 		simrt.Count(cBeyondPlan)
 	}
+	// (LinkADRReq addresses 16-channel blocks 0..5 with ChMaskCntl, 6 and 7
+	// have other meanings: a plan or device set beyond 96 channels - only the
+	// long histories get there - has no defined LinkADRReq and is not judged)
+	addressable := n <= 96
+	for _, c := range dev {
+		if c >= 96 {
+			addressable = false
+		}
+	}
 	var pls []lorawan.LinkADRReqPayload
-	if !sim.Guard("panic", func() { pls = b.GetLinkADRReqPayloadsForEnabledUplinkChannelIndices(dev) }) {
+	if !addressable {
+		simrt.Count(cBeyond96)
+	} else if !sim.Guard("panic", func() { pls = b.GetLinkADRReqPayloadsForEnabledUplinkChannelIndices(dev) }) {
 		for k := range pls {
 			simrt.Count(cLinkADR)
 			pl := pls[k]
